@@ -377,9 +377,16 @@ func (ls *LState) LoadFile(path string) (*LFunction, error) {
 	if c == byte('#') {
 		// Unix exec. file?
 		// skip first line
-		_, err, _ = readBufioLine(reader)
-		if err != nil {
+		var line []byte
+		line, err = reader.ReadBytes('\n')
+		if err != nil && err != io.EOF {
 			return nil, newApiErrorE(ApiErrorFile, err)
+		}
+		if len(line) > 0 && line[len(line)-1] == '\n' {
+			err = nil
+		} else {
+			// the file ends inside the first line: nothing is left to load and nothing to unread
+			err = io.EOF
 		}
 	}
 
